@@ -121,6 +121,58 @@ func keySegments(v ssa.Value, depth int) (segs []keySeg, ok bool) {
 		case name == "(*strings.Builder).String":
 			return builderSegments(x, depth)
 		}
+		// a same-package helper that does nothing but build the string from its parameters
+		// (keyString(scheme, method, host, path, query) = Sprintf("%s|%q|...", ...)): its construction with the
+		// arguments put in the parameters' places
+		if h := helperBody(x); h != nil && isStringType(x.Type()) {
+			var only *ssa.Return
+			n := 0
+			eachInstr(h, func(in ssa.Instruction) {
+				if ret, isRet := in.(*ssa.Return); isRet && !isRecoverReturn(ret) {
+					only = ret
+					n++
+				}
+			})
+			if n == 1 && len(only.Results) == 1 {
+				if inner, okI := keySegments(retVals(only)[0], depth+1); okI {
+					args := callArgs(x)
+					var out []keySeg
+					good := len(inner) > 1
+					for _, sg := range inner {
+						if sg.val == nil {
+							out = append(out, sg)
+							continue
+						}
+						prm, isP := resolveVal(sg.val).(*ssa.Parameter)
+						idx := -1
+						if isP {
+							for i, q := range h.Params {
+								if q == prm {
+									idx = i
+								}
+							}
+						}
+						if idx < 0 || idx >= len(args) {
+							good = false
+							break
+						}
+						if sg.escaped || !isStringType(args[idx].Type()) {
+							out = append(out, keySeg{val: args[idx], escaped: sg.escaped, how: sg.how})
+							continue
+						}
+						sub, okS := keySegments(args[idx], depth+1)
+						if !okS {
+							good = false
+							break
+						}
+						out = append(out, sub...)
+					}
+					if good {
+						return out, true
+					}
+				}
+			}
+		}
 	}
 	// anything else is one component
 	if isStringType(v.Type()) || true {
